@@ -184,7 +184,7 @@ func main() {
 		Assumptions: []string{
 			"within one layer a name is defined once, so the result does not depend on the order in which a directory is walked",
 			"a view owns every template file below its directory; empty template files (rejected by the loaders on purpose) and view name \"\" are not generated",
-			"in every other request sequence the base and layout templates are executed exactly as handed out (what a caller does; the provider must still answer every later request); in the other sequences and in the concurrent batches they are rendered on a private clone",
+			"in every other request sequence the base and layout templates are executed exactly as handed out (what a caller does; the provider must still answer every later request); also by the concurrent callers of every other plan; otherwise they are rendered on a private clone",
 			"all interleavings = the interleavings produced by the Go scheduler under GOMAXPROCS 2/4/16 with yield noise; the race detector covers unsynchronised access pairs that did not collide",
 		},
 		Plan: plan,
